@@ -87,7 +87,8 @@ def _warm_start(S):
                 self.shape, self.matvec = shape, matvec
 
         def cg_stub(A, b, M=None, callback=None, **kw):
-            seen['A'], seen['b'], seen['M'] = A, b, M
+            # per-path record (the ghost state belongs to the path being explored)
+            P.cur().ghost['cg.call'] = dict(A=A, b=b, M=M)
             if callback:
                 callback(None)
             return P.AVec.atom('dx_cg'), 0
@@ -103,6 +104,17 @@ def _warm_start(S):
         def post(r, ctx):
             k = 0 if index is None else index
             o = OD()
+            seen = ctx.ghost.get('cg.call')
+            if seen is None:
+                # a path without a linear solve: the increment -H^{-1} J dp is the zero vector exactly when the slot did not change
+                # (H positive definite), so such a path must have ||p_old[k] - p_new[k]||^2 = 0 and must return the zero vector
+                dp = pold[k] - pnew[k]
+                o['right_hand_side_is_parameter_jacobian_times_old_minus_new'] = tm.eq(dp @ dp, tm.ZERO)
+                o['operator_is_hessian_at_current_point_and_old_parameters'] = tm.TRUE
+                o['preconditioner_is_objective_preconditioner'] = tm.TRUE
+                o['returns_linear_solve_result'] = tm.and_(*r.same_as(P.AVec.zero())) if isinstance(r, P.AVec) else tm.FALSE
+                o['parameters_untouched_during_warm_start'] = tm.TRUE if not ctx.ghost.get('obj.p.writes') else tm.FALSE
+                return o
             expect_b = (obj.jacobian_p_vec if k == 0 else obj.jacobian_p2_vec)(x, pold[k] - pnew[k])
             o['right_hand_side_is_parameter_jacobian_times_old_minus_new'] = tm.and_(*seen['b'].same_as(expect_b))
             v = P.AVec.atom('v_test')
